@@ -106,6 +106,11 @@ MatFromMatSources(C, R, C2, R2) ==                                              
 QuaWxyzSources == <<SArg(1, 1), SArg(2, 1), SArg(3, 1), SArg(4, 1)>>       \* qua(w, x, y, z), qua::wxyz(w, x, y, z)
 QuaSVecSources == <<SArg(1, 1), SArg(2, 1), SArg(2, 2), SArg(2, 3)>>       \* qua(s, vec3)
 QuaConvSources == [i \in 1..4 |-> SArg(1, i)]                              \* qua(qua<U, P>)
+QuaXyzwSources == <<SArg(4, 1), SArg(1, 1), SArg(2, 1), SArg(3, 1)>>       \* qua(x, y, z, w) of the GLM_FORCE_QUAT_DATA_XYZW configuration
+QuaSources(form) == CASE form \in {"wxyz", "static_wxyz"} -> QuaWxyzSources
+                      [] form = "sv"   -> QuaSVecSources
+                      [] form = "conv" -> QuaConvSources
+                      [] form = "xyzw" -> QuaXyzwSources
 
 \* every result component is the cast of its source / the constant of the result type
 CtorOK(tt, srcs, at, a, r) ==
